@@ -1,6 +1,7 @@
 package props
 
 import (
+	"encoding/json"
 	"flag"
 	"fmt"
 	"os"
@@ -91,6 +92,9 @@ func rapidLoop(t *testing.T, rec *sb.Rec, name string, total, chunk int, deadlin
 		if !ok && last != nil {
 			if last.Post != nil {
 				if red := last.Post(); red != nil {
+					// keep the rapid-shrunk case next to the AST-reduced one, so that a reduction that
+					// drifted to a different cause can be told apart afterwards
+					red.Case = map[string]any{"reduced": red.Case, "before_reduction": last.Case}
 					last = red
 				}
 			}
@@ -106,4 +110,16 @@ func rapidLoop(t *testing.T, rec *sb.Rec, name string, total, chunk int, deadlin
 		}
 		rec.Flush()
 	}
+}
+
+// unwrapCase returns the reduced case of a replay file written after an AST reduction
+// ({"reduced": ..., "before_reduction": ...}), or the case itself.
+func unwrapCase(raw json.RawMessage) json.RawMessage {
+	var w struct {
+		Reduced json.RawMessage `json:"reduced"`
+	}
+	if json.Unmarshal(raw, &w) == nil && len(w.Reduced) > 0 {
+		return w.Reduced
+	}
+	return raw
 }
